@@ -1,0 +1,59 @@
+//go:build verif
+
+// Specifications for package keys (comment-only file; read by /verif/bin/hopvc).
+// These wrap the curve25519 / ML-KEM libraries; the contracts below are ASSUMED
+// (the libraries are outside the verified code): results are abstract, only
+// sizes and nil-ness are stated, and the library calls the wrappers mark as
+// "should never happen" panics are assumed not to fail.
+
+package keys
+
+//@ spec kemPubOK(data Bytes) bool
+//@ spec kemPubOf(k Ref) Bytes
+//@ spec dhAgree(priv Bytes, pub Bytes) Bytes
+//@ spec kemSecret(ct Bytes, k Ref) Bytes
+
+//@ func ParseKEMPublicKeyFromBytes(data []byte) (k *KEMPublicKey, err error)
+//@   assume ML-KEM library wrapper
+//@   pure
+//@   ensures err == nil <==> k != nil
+//@   ensures err == nil ==> *k != nil && kemPubOK(bytes(data)) && kemPubOf(ref(*k)) == bytes(data)
+
+//@ func (k KEMPublicKey) MarshalBinary() (b []byte, err error)
+//@   assume ML-KEM library: the encoding of a parsed ML-KEM-512 public key is 800 bytes
+//@   pure
+//@   ensures err == nil ==> len(b) == 800 && bytes(b) == kemPubOf(ref(k))
+
+//@ func (k kem.PublicKey) MarshalBinary() (b []byte, err error)
+//@   assume ML-KEM library: the encoding of a parsed ML-KEM-512 public key is 800 bytes
+//@   pure
+//@   ensures err == nil ==> len(b) == 800 && bytes(b) == kemPubOf(ref(k))
+
+//@ func Encapsulate(rng io.Reader, dest *KEMPublicKey) (ct []byte, ss []byte, err error)
+//@   assume ML-KEM library wrapper (encapsulation to a parsed key does not fail)
+//@   pure
+//@   ensures err == nil ==> len(ct) == 768 && len(ss) == 32
+
+//@ func (kp *KEMKeyPair) Decapsulate(ct []byte) (ss []byte, err error)
+//@   assume ML-KEM library wrapper (implicit rejection: decapsulation of a right-sized ciphertext does not fail)
+//@   pure
+//@   ensures err == nil ==> len(ss) == 32 && len(ct) == 768
+
+//@ func GenerateKEMKeyPair(rng io.Reader) (kp *KEMKeyPair, err error)
+//@   assume ML-KEM library wrapper
+//@   pure
+//@   ensures err == nil <==> kp != nil
+
+//@ func (x *X25519KeyPair) Generate()
+//@   assume crypto/rand does not fail; curve25519 base multiplication
+//@   modifies x.Public, x.Private
+
+//@ func (x *X25519KeyPair) DH(other []byte) (out []byte, err error)
+//@   assume curve25519.X25519
+//@   pure
+//@   ensures err == nil ==> len(out) == 32 && bytes(out) == dhAgree(bytes(x.Private), bytes(other))
+
+//@ func (e Exchangable) Agree(other []byte) (out []byte, err error)
+//@   assume key agreement of the configured static key (X25519 or an agent)
+//@   pure
+//@   ensures err == nil ==> len(out) == 32
